@@ -385,6 +385,11 @@ func translateTopics(p *pkgInfo, topicsIn []topic, withMisc bool, prefix string,
 				known[k] = true // not followed: a parameter of the translated functions
 				c.opaqueOf[k] = true
 			}
+			for _, sp := range spTopics[topics[i].name] {
+				if sp.recv != "" {
+					known[fnKey{sp.recv, sp.name}] = true // code_opq.go / code_osap.go: an opaque method is not followed
+				}
+			}
 			var hs []fnKey
 			for _, k := range topics[i].fns {
 				c.helperCallees(k, known, &hs)
@@ -514,6 +519,9 @@ func translateTopics(p *pkgInfo, topicsIn []topic, withMisc bool, prefix string,
 		// reflective helpers called by the functions of this module
 		hs := map[string]bool{}
 		for _, o := range res.outs {
+			if c.fns[o.key] == nil {
+				continue // code_osap.go: the dispatch function of a field of function type
+			}
 			ast.Inspect(c.fns[o.key].Body, func(n ast.Node) bool {
 				if call, ok := n.(*ast.CallExpr); ok {
 					if id, ok := call.Fun.(*ast.Ident); ok && c.refl[id.Name] != nil {
